@@ -30,6 +30,7 @@ const (
 	kInt    = "int"
 	kBytes  = "bytes"
 	kBool   = "bool"
+	kRec    = "rec" // a value of a statically declared recursive type (rec_test.go)
 
 	maxDepth  = 5
 	maxLeaves = 12
@@ -44,6 +45,8 @@ type Shape struct {
 	N int `json:"n,omitempty"`
 	// Nil makes the pointer / interface value nil.
 	Nil bool `json:"nil,omitempty"`
+	// R describes the value of a "rec" node.
+	R *RecRoot `json:"r,omitempty"`
 }
 
 // Field is a struct field; its name is "F<position>".
@@ -75,17 +78,25 @@ func genShape(t *rapid.T, depth, allow int, inIface bool) (Shape, int) {
 	if inIface {
 		// "Iface{holding struct or pointer(-to-struct) or slice/map}" (+ plain string / int, as in map[string]any)
 		kinds = []string{kString, kInt, kStruct, kStruct, kStruct, kPtr, kPtr, kPtr, kSlice, kSlice, kMap, kMap}
+		if allow >= recLeafCost {
+			kinds = append(kinds, kRec, kRec)
+		}
 	} else {
 		// leaves first: rapid shrinks a SampledFrom draw towards the front of the list (and also favours it a little
 		// when generating, hence the weight of the composite kinds)
 		kinds = []string{kString, kInt, kBytes, kBool,
 			kStruct, kStruct, kStruct, kPtr, kPtr, kPtr, kSlice, kSlice, kSlice, kMap, kMap, kMap,
 			kIface, kIface, kIface, kIface}
+		if allow >= recLeafCost {
+			kinds = append(kinds, kRec)
+		}
 	}
 	k := rapid.SampledFrom(kinds).Draw(t, "kind")
 	switch k {
 	case kStruct:
 		return genStruct(t, depth, allow, 3)
+	case kRec:
+		return genRec(t), recLeafCost
 	case kPtr:
 		s := Shape{K: kPtr}
 		var e Shape
@@ -158,6 +169,9 @@ func genStruct(t *rapid.T, depth, allow, maxFields int) (Shape, int) {
 
 // genTop draws the type of a request / response: always a struct at the top.
 func genTop(t *rapid.T) Shape {
+	if rapid.IntRange(0, 6).Draw(t, "toprec") == 6 {
+		return genRec(t) // the request / response type itself is one of the recursive family
+	}
 	allow := rapid.IntRange(1, maxLeaves).Draw(t, "leaves")
 	s, _ := genStruct(t, 0, allow, 4)
 	return s
@@ -198,6 +212,9 @@ func validShape(s *Shape, depth int, inIface bool, leaves *int) error {
 			return fmt.Errorf("interface holding %s", s.E.K)
 		}
 		return validShape(s.E, depth+1, true, leaves)
+	case kRec:
+		*leaves += recLeafCost
+		return validRec(s.R)
 	case kString, kInt, kBytes, kBool:
 		*leaves++
 	default:
@@ -230,6 +247,8 @@ func typeOf(s *Shape) reflect.Type {
 		return reflect.MapOf(reflect.TypeOf(""), typeOf(s.E))
 	case kIface:
 		return anyType
+	case kRec:
+		return recTypeOf(s.R)
 	case kString:
 		return reflect.TypeOf("")
 	case kInt:
@@ -396,6 +415,8 @@ func (b *valueBuilder) value(s *Shape, p pathInfo) reflect.Value {
 			v.Set(b.value(s.E, p.push(s.E.K)))
 		}
 		return v
+	case kRec:
+		return b.recValue(t, &s.R.V, p)
 	case kString:
 		return reflect.ValueOf(b.plant('s', p).str())
 	case kInt:
@@ -410,7 +431,7 @@ func (b *valueBuilder) value(s *Shape, p pathInfo) reflect.Value {
 
 // top builds the request / response value of a carrier: the struct itself or a pointer to it, as an `any`.
 func (b *valueBuilder) top(s *Shape, ptr bool) any {
-	v := b.value(s, pathInfo{kinds: []string{kStruct}})
+	v := b.value(s, pathInfo{kinds: []string{s.K}})
 	if ptr {
 		p := reflect.New(v.Type())
 		p.Elem().Set(v)
@@ -426,9 +447,17 @@ var hardEdges = map[string]bool{
 	"slice>iface": true, "map>iface": true,
 }
 
-// pathClass maps "struct>slice>iface>struct>string" to "slice>iface"; paths without such a construct are "plain".
+// pathClass maps "struct>slice>iface>struct>string" to "slice>iface"; paths without such a construct are "plain";
+// paths through a value of the recursive family are "recursive-type".
+func joinKinds(ks []string) string { return strings.Join(ks, ">") }
+
 func pathClass(path string) string {
 	ks := strings.Split(path, ">")
+	for _, k := range ks {
+		if k == kRec {
+			return "recursive-type" // the canary sits in a value of a (mutually) recursive static type
+		}
+	}
 	for i := 0; i+1 < len(ks); i++ {
 		if e := ks[i] + ">" + ks[i+1]; hardEdges[e] {
 			return e
